@@ -15,9 +15,10 @@ class C05(Prop):
             "resolve; get_webentity_crawled_pages is the crawled subset. non-trivial = >= 2 webentities, one nested below "
             "another, each holding >= 1 page.")
     MODES = ("url",)
-    LONG_BIAS = 0.1
+    LONG_BIAS = 0.25
+    BACKENDS = ("file", "file", "memory")
     WEIGHTS = {"page": 5, "pages": 3, "links": 2, "batch": 2, "again": 1, "create": 4, "delete": 1, "addprefix": 4,
-               "rmprefix": 1, "move": 2, "rule": 2, "unrule": 1, "reopen": 1}
+               "rmprefix": 1, "move": 2, "rule": 2, "unrule": 1, "reopen": 1, "clear": 1}
     QUICK = (40, 20)
     THOROUGH = (200, 40)
     ASSUMPTIONS = ["relational oracle: page enumeration, resolution and prefix enumeration of the same index are the reference"]
